@@ -78,6 +78,10 @@ Item &refItem();
 std::vector<double> vecRetD(int n);
 
 
+namespace deep {
+std::vector<long> vecRetL(int n);
+}
+
 // extra declarations: not called by the drivers; variants wrap a random subset of them to shift
 // the destructor table
 class Extra1 { public: Extra1() {} ~Extra1() {} };
